@@ -6,6 +6,13 @@ import tempfile
 import shutil
 import time
 
+def harness_bin(build, name):
+    """path of a C harness / helper program compiled by tools/build.sh for this checkout"""
+    import hashlib
+    root = os.path.abspath(os.path.join(os.path.dirname(os.path.abspath(__file__)), '..', '..'))
+    return os.path.join(os.path.dirname(os.path.abspath(build)), 'harness-' + hashlib.md5(root.encode()).hexdigest()[:8], name)
+
+
 DEFAULT_POLICY = '''<policy context="default">
     <allow send_destination="*" eavesdrop="true"/>
     <allow eavesdrop="true"/>
